@@ -248,6 +248,24 @@ def main():
                 d.append("c18_user_edit")
         for dev, feat, key in cfg["work"]["then_load"]:
             data_file(dev, feat, key)
+    if cfg.get("late_damage") is not None:
+        # this process is up (database object and configuration-file cache initialised); now the cache file is left the way a writer
+        # killed in the middle of its write leaves it (another process' doing), and this process goes on loading further files
+        out["phase"] = "late_damage"
+        import glob as _glob
+
+        dbm.DatabaseManager().db  # noqa: B018 - first use: loads / creates the data cache
+        for dev, feat, key in cfg["queries"].get("data_files", [])[:1]:
+            data_file(dev, feat, key)
+        names = _glob.glob(os.path.join(dbm.get_spsdk_cache_dirname(), "db_data_*.cache"))
+        out["late_damage_files"] = len(names)
+        keep = cfg["late_damage"]
+        for name in names:
+            with open(name, "rb") as f:
+                content = f.read()
+            n = keep if keep >= 0 else len(content) // 2
+            with open(name, "wb") as f:
+                f.write(content[:n])
     out["phase"] = "queries"
     q, A = cfg["queries"], out["answers"]
     if cfg.get("entry") == "cli":
